@@ -9,6 +9,9 @@
 u8_t bufferctrl::live_num = 0;
 buffergroup *buffergroup::instance = NULL;
 std::mutex buffergroup::mtx;
+#ifdef WENCRY_VERIF
+void (*wv_point_fn)(const char *tag, int id) = NULL;
+#endif
 
 /*################################
   单缓冲区函数
@@ -21,6 +24,7 @@ return:返回装载状态
 */
 loadstate_t iobuffer::load_buffer(FILE *fin, bool ispadding)
 {
+  WV_POINT("ld0", -1);
   u32_t load = fread(b, 1, sum, fin);
   bool readover = feof(fin);
   tail = load & 0xf;
@@ -31,13 +35,16 @@ loadstate_t iobuffer::load_buffer(FILE *fin, bool ispadding)
     u8_t padding = 16 - tail;
     memset(b[total++] + tail, padding, padding);
     isfinal = true;
+    WV_POINT("ld1", FINAL);
     return FINAL;
   }
   if ((!ispadding) && readover)
   {
     isfinal = true;
+    WV_POINT("ld1", FINAL);
     return FINAL;
   }
+  WV_POINT("ld1", load == 0 ? NODATA : FULL);
   return load == 0 ? NODATA : FULL;
 }
 /*
@@ -47,6 +54,7 @@ ispadding:是否填充
 */
 void iobuffer::export_buffer(FILE *fout, bool ispadding)
 {
+  WV_POINT("ex0", -1);
   if (isfinal)
   {
     u8_t padding = ispadding ? 0 : b[now - 1][15];
@@ -54,6 +62,7 @@ void iobuffer::export_buffer(FILE *fout, bool ispadding)
   }
   else
     fwrite(b, 1, sum, fout);
+  WV_POINT("ex1", -1);
 }
 /*################################
   缓冲区控制函数
@@ -64,6 +73,7 @@ wait_ready:等待装载就绪
 void bufferctrl::wait_ready()
 {
   std::unique_lock<std::mutex> locker(lock);
+  WV_POINT("wr", -1);
   while (state != READY && state != INV)
     cv_ready.wait(locker);
   locker.unlock();
@@ -74,6 +84,7 @@ wait_update:等待可以装载
 void bufferctrl::wait_update()
 {
   std::unique_lock<std::mutex> locker(lock);
+  WV_POINT("wu", -1);
   while (state != UPDATING && state != EMPTY)
     cv_update.wait(locker);
   locker.unlock();
@@ -85,6 +96,7 @@ load:装载是否不为空
 void bufferctrl::set_ready(bool load)
 {
   std::unique_lock<std::mutex> locker(lock);
+  WV_POINT("sr", load);
   if (load)
     state = READY;
   else
@@ -101,6 +113,7 @@ set_update:设置可装载状态
 void bufferctrl::set_update()
 {
   std::unique_lock<std::mutex> locker(lock);
+  WV_POINT("su", -1);
   if (state == READY)
   {
     state = UPDATING;
@@ -157,6 +170,7 @@ return:迭代是否成功
 */
 bool buffergroup::turn_iter()
 {
+  WV_POINT("ti", turn);
   if (!bufferctrl::haslive())
     return false;
   do
@@ -171,11 +185,13 @@ return:表项地址，若缓冲区已经读取完毕返回NULL
 */
 u8_t *buffergroup::require_buffer_entry(const u8_t id)
 {
+  WV_POINT("ge", id);
   u8_t *result = buflst[id].get_entry();
   if (result == NULL)
   {
     ctrl[id].set_update();
     ctrl[id].wait_ready();
+    WV_POINT("chk", id);
     if (ctrl[id].cmpstate(READY))
       result = buflst[id].get_entry();
   }
@@ -188,6 +204,7 @@ printload:过程打印函数
 void buffergroup::buffer_update(const std::function<void(std::string, size_t)> &printload)
 {
   loadstate_t loadstate = NODATA;
+  WV_POINT("bu", turn);
   if (ctrl[turn].cmpstate(UPDATING))
   {
     buflst[turn].export_buffer(fout, ispadding);
